@@ -1321,6 +1321,41 @@ def search_gauss_family(ctx):
                     ctx.counterexample(r[0], r[1], {"check": "circuit-fidelity", "spec": spec, "rep": rep, "modes": ms, "hbar": hbar})
 
 
+STRUCTURED_SPECS = [
+    {"n": 1, "cmds": []},
+    {"n": 1, "cmds": [["Dgate", [0.4, 0.0], [0], False]]},
+    {"n": 1, "cmds": [["Sgate", [0.3, 0.0], [0], False]]},
+    {"n": 1, "cmds": [["Sgate", [0.3, math.pi], [0], False], ["Dgate", [0.3, math.pi / 2], [0], False]]},
+    {"n": 1, "cmds": [["Sgate", [0.3, math.pi / 2], [0], False]]},
+    {"n": 1, "cmds": [["Sgate", [-0.25, 0.0], [0], False], ["LossChannel", [0.5], [0], False]]},
+    {"n": 2, "cmds": [["Sgate", [0.3, 0.0], [0], False], ["Dgate", [0.3, math.pi], [1], False]]},
+    {"n": 2, "cmds": [["Sgate", [0.25, math.pi], [1], False], ["BSgate", [math.pi / 4, 0.0], [1, 0], False]]},
+    {"n": 2, "cmds": [["S2gate", [0.25, 0.0], [0, 1], False]]},
+    {"n": 3, "cmds": [["Sgate", [0.3, 0.0], [2], False], ["Dgate", [0.3, 0.0], [0], False], ["BSgate", [math.pi / 2, 0.0], [2, 0], False]]},
+]
+
+
+def search_structured_sweep(ctx):
+    """deterministic family: vacuum, coherent, axis-aligned squeezing (phi = 0, pi, pi/2), negative r, exact
+    50:50 and swap beam splitters, product states - parameter values a random stream rarely hits"""
+    rng = ctx.rng
+    for si, spec in enumerate(STRUCTURED_SPECS):
+        n = spec["n"]
+        hbar = [2.0, 1.7, 1.0][si % 3]
+        cutoff = FOCK_CUTOFF[n]
+        qs = gen_queries(rng, n, cutoff, True)
+        cache = {}
+        for rep in ("gaussian", "bosonic") + (("fock",) if n == 1 or (ctx.tier != "quick" and n == 2) else ()):
+            for q in qs:
+                if q["m"] not in APPLIES[rep] or (rep != "gaussian" and q["m"] in ("dm", "x_quad_values", "p_quad_values", "wigner")):
+                    continue
+                r = eval_gauss_query(spec, rep, q, cutoff, cache, hbar)
+                ctx.case({"family": "structured", "rep": rep, "spec": si, "hbar": hbar, "q": {k: v for k, v in q.items() if k in ("m", "modes", "mode", "n")}},
+                         nontrivial=n >= 2 and "modes" in q and len(q["modes"]) < n, bucket="search:structured:%s:%s" % (rep, q["m"]))
+                if r:
+                    ctx.counterexample(r[0], r[1], {"check": "gauss-query", "spec": spec, "rep": rep, "q": q, "cutoff": cutoff, "hbar": hbar})
+
+
 def eval_circuit_fidelity(spec, rep, ms, cache=None, hbar=2.0):
     with _Hbar(hbar):
         return _eval_circuit_fidelity(spec, rep, ms, cache)
@@ -2308,6 +2343,7 @@ def correspondence(ctx):
 
 def search(ctx):
     replay_corpus(ctx)
+    search_structured_sweep(ctx)
     search_gauss_family(ctx)
     search_fock_family(ctx)
     search_bosonic_family(ctx)
